@@ -84,10 +84,20 @@ class World:
             return None
         return dr
 
-    def handshake(self):
+    def handshake(self, part=None):
+        """part=None: the whole request / response in one read; ("head", k): only its first k octets (k < 0: all but the last -k); ("tail", k): the rest"""
         from harness import wsutil
         if self.is_server:
-            self.ep.feed(wsutil.raw_request())
+            data = wsutil.raw_request()
+            if part is not None:
+                k = part[1] if part[1] >= 0 else len(data) + part[1]
+                self.ep.feed(data[:k] if part[0] == "head" else data[k:])
+                self.d.settle()
+                self.collect()
+                if part[0] == "head":
+                    return
+            else:
+                self.ep.feed(data)
         else:
             if self.c.get("proxy") and not getattr(self, "proxy_answered", False):
                 self.proxy_connect()
@@ -98,7 +108,16 @@ class World:
             key = dict(parsed[1]).get("sec-websocket-key") if parsed else None
             if key is None:
                 raise Violation("C17|open|no-websocket-request-after-proxy-connect" if self.c.get("proxy") else "C17|open|no-websocket-request", repr(self.hs_out[:200]), self.c)
-            self.ep.feed(wsutil.raw_response(key))
+            data = wsutil.raw_response(key)
+            if part is not None:
+                k = part[1] if part[1] >= 0 else len(data) + part[1]
+                self.ep.feed(data[:k] if part[0] == "head" else data[k:])
+                self.d.settle()
+                self.collect()
+                if part[0] == "head":
+                    return
+            else:
+                self.ep.feed(data)
         self.d.settle()
         self.collect()
         self.handshook = True
@@ -243,10 +262,17 @@ def sc_open(c):
             w.advance_to(arm + delay * 0.5)
             if not w.ep.loss_delivered:
                 w.proxy_connect()
+    split = c.get("hs_split") if not c.get("proxy") else None
+    if split:
+        # the peer's request / response trickles in: some octets early (well before the deadline), the rest at the drawn time - or never.
+        # Only the *complete* handshake counts; the first octets must not disarm the deadline
+        w.advance_to(arm + min(T, delay if delay is not None else T) * 0.25)
+        if not w.ep.loss_delivered:
+            w.handshake(("head", split))
     if delay is not None:
         w.advance_to(arm + delay)
         if not w.ep.loss_delivered:
-            w.handshake()
+            w.handshake(("tail", split) if split else None)
     if delay is None:
         w.stalled = bool(c.get("stalled"))
     w.advance_to(arm + T + 3)
@@ -260,7 +286,7 @@ def sc_open(c):
         if w.side.count("open") != 1:
             raise Violation("C17|open|handshake-in-time-but-not-open", repr(w.side.log), c)
     w.finish()
-    return "open/" + c["p1"] + ("/proxy-" + c["proxy"] if c.get("proxy") else "")
+    return "open/" + c["p1"] + ("/proxy-" + c["proxy"] if c.get("proxy") else "") + ("/trickled" if split else "")
 
 
 def sc_close(c):
@@ -531,6 +557,7 @@ def strategy():
                 c["ping_iv"] = 0
         if sc == "open":
             c["ping_iv"] = c["ping_to"] = 0
+            c["hs_split"] = draw(st.sampled_from([None, None, 1, 18, -2, -1]))
             if not c["server"]:
                 # a client may go through an explicit HTTP proxy: the deadline covers the CONNECT exchange as well
                 c["proxy"] = draw(st.sampled_from([None, None, "silent", "answers", "answers-then-silent"]))
